@@ -135,6 +135,9 @@ var c19Corpus = []c19Case{
 	{"corpus", `round --up 5 1e-1`},
 	{"corpus", `tout generic "a b\nc d\ne f\n" -> [ *3 *0 ]`},
 	{"corpus", `tout generic "a b\nc d\ne f\n" -> ![ *0 ]`},
+	{"corpus", `tout csv "a,b\n1,2\n3" -> [ *99999999999 *7 ]`},
+	{"corpus", `tout csv "a,b\n1,2\n3" -> [ *9223372036854775807 *007 ]`},
+	{"corpus", `tout csv "a,b\n1,2\n3" -> ![ *99999999999 *7 ]`},
 	{"corpus", `history`},
 	{"corpus", `out -> regexp 007`},
 	{"corpus", `murex-docs 100`},
